@@ -480,6 +480,11 @@ func TestVerifC11(t *testing.T) {
 				}
 			}
 			sets = append(sets, []uint64{0xdead}, []uint64{quic.QTPGrease, quic.QTPGrease})
+			for _, p := range c11QTP(&sp).TransportParameters { // the exact (pinned) id of a GREASE parameter
+				if id := p.ID(); wireobs.IsGreaseTP(id) && id != quic.QTPGrease {
+					sets = append(sets, []uint64{id}, []uint64{id + 31})
+				}
+			}
 			for _, s := range sets {
 				for _, r := range []bool{false, true} {
 					cfgs = append(cfgs, c11Config{Base: b, Suppress: s, Randomize: r, SCIDLen: -1, Seed: seed})
@@ -496,7 +501,9 @@ func TestVerifC11(t *testing.T) {
 		}
 		for _, b := range []int{0, 2} {
 			for _, l := range c11Lists(maxLen) {
-				for _, sup := range [][]uint64{nil, {quic.QTPGrease}, {0x01}} {
+				// (27+31*5 is the exact id of the fake-grease-id atom: a GREASE-shaped id other than the
+				// canonical 27 names exactly that one parameter, not every GREASE parameter)
+				for _, sup := range [][]uint64{nil, {quic.QTPGrease}, {0x01}, {27 + 31*5}, {27 + 31*6}} {
 					for _, r := range []bool{false, true} {
 						cfgs = append(cfgs, c11Config{Base: b, List: l, Suppress: sup, Randomize: r, SCIDLen: 8, Seed: seed})
 					}
@@ -506,7 +513,7 @@ func TestVerifC11(t *testing.T) {
 		for i := range cfgs {
 			cfgs[i].Seed = seed + uint64(i)*3
 		}
-		return cfgs, fmt.Sprintf("(a) 7 built-in fingerprints x {no suppression, every single present id (pairs in thorough), absent id, GREASE twice} x randomisation on/off, plus SCID lengths 0/8 with randomisation; (b) every transport parameter list of <= %d entries over %d atoms (standard, fake raw, GREASE with random id and length, fake with a GREASE id, duplicate id, empty initial_source_connection_id) x 3 suppression sets x randomisation on/off on 2 bases; 3 dials on ONE reused spec value each", maxLen, len(c11Atoms))
+		return cfgs, fmt.Sprintf("(a) 7 built-in fingerprints x {no suppression, every single present id (pairs in thorough), absent id, GREASE twice} x randomisation on/off, plus SCID lengths 0/8 with randomisation; (b) every transport parameter list of <= %d entries over %d atoms (standard, fake raw, GREASE with random id and length, fake with a GREASE id, duplicate id, empty initial_source_connection_id) x 5 suppression sets (none, every GREASE, a standard id, the exact id of one GREASE-shaped parameter, an absent GREASE-shaped id) x randomisation on/off on 2 bases; 3 dials on ONE reused spec value each", maxLen, len(c11Atoms))
 	}
 	wirePart.Run = func(e explore.Env) *explore.Report {
 		cfgs, rule := mk(e)
